@@ -94,3 +94,323 @@
             lemma_chain_none_extends(fs, c, ts, n + 1);
         }
     }
+
+    // ---- what a configuration denotes (src/config.rs values; written from the property statement and the option docs) ---
+    pub open spec fn cfg_op(o: config::FilterOperation) -> FilterOperation {
+        match o {
+            config::FilterOperation::Equals(v) => FilterOperation::Equals(v),
+            config::FilterOperation::NotEquals(v) => FilterOperation::NotEquals(v),
+            config::FilterOperation::Exists => FilterOperation::Exists,
+            config::FilterOperation::NotExists => FilterOperation::NotExists,
+            config::FilterOperation::In(vs) => FilterOperation::In(vs),
+            config::FilterOperation::NotIn(vs) => FilterOperation::NotIn(vs),
+        }
+    }
+    pub open spec fn cfg_rule(r: config::FilterRule) -> FilterRule { FilterRule { key: r.key, operation: cfg_op(r.operation) } }
+    pub open spec fn cfg_rules_ok(rules: Seq<config::FilterRule>, t: Target) -> bool { forall|i: int| 0 <= i < rules.len() ==> rule_ok(cfg_rule(#[trigger] rules[i]), t) }
+    pub open spec fn cfg_regex(p: Option<String>) -> Option<Regex> { match p { Some(s) => regex_compile(s@), None => None } }
+    pub open spec fn some_parsed_id(xs: Seq<String>, v: Uuid) -> bool { exists|i: int| 0 <= i < xs.len() && uuid_parse((#[trigger] xs[i])@) == Some(v) }
+    pub open spec fn cfg_listed(usernames: Option<Vec<String>>, username: Option<String>, ids: Option<Vec<String>>, c: Ctx) -> bool {
+        (usernames matches Some(xs) && some_equal(xs@, c.name))
+        || (cfg_regex(username) matches Some(re) && regex_match(re, c.name))
+        || (ids matches Some(xs) && some_parsed_id(xs@, c.id))
+    }
+    pub open spec fn ids_valid(ids: Option<Vec<String>>) -> bool { ids matches Some(xs) ==> forall|i: int| 0 <= i < xs@.len() ==> uuid_parse((#[trigger] xs@[i])@) is Some }
+    pub open spec fn regex_valid(p: Option<String>) -> bool { p matches Some(s) ==> regex_compile(s@) is Some }
+    /// a configuration can be turned into adapters iff its patterns compile and its ids parse
+    pub open spec fn cfg_valid(cf: config::OptionFilterAdapter) -> bool {
+        regex_valid(cf.hostname) && match cf.filter {
+            config::FilterAdapter::Meta(m) => true,
+            config::FilterAdapter::PlayerAllow(p) => regex_valid(p.username) && ids_valid(p.ids),
+            config::FilterAdapter::PlayerBlock(p) => regex_valid(p.username) && ids_valid(p.ids),
+        }
+    }
+    /// C18: target `t` qualifies for the player / host name of `c` under one configured filter
+    pub open spec fn cfg_qualifies(cf: config::OptionFilterAdapter, c: Ctx, t: Target) -> bool {
+        !applicable(cfg_regex(cf.hostname), c) || match cf.filter {
+            config::FilterAdapter::Meta(m) => cfg_rules_ok(m.rules@, t),
+            config::FilterAdapter::PlayerAllow(p) => cfg_listed(p.usernames, p.username, p.ids, c),
+            config::FilterAdapter::PlayerBlock(p) => !cfg_listed(p.usernames, p.username, p.ids, c),
+        }
+    }
+    /// ... and under the whole configured filter list
+    pub open spec fn cfgs_qualify(cfs: Seq<config::OptionFilterAdapter>, c: Ctx, t: Target) -> bool { forall|i: int| 0 <= i < cfs.len() ==> cfg_qualifies(#[trigger] cfs[i], c, t) }
+    pub open spec fn dyn_filtered(a: DynFilterAdapter, c: Ctx, ts: Seq<Target>) -> Option<Seq<Target>> {
+        match a {
+            DynFilterAdapter::Meta(x) => x.filtered(c, ts),
+            DynFilterAdapter::PlayerAllow(x) => x.filtered(c, ts),
+            DynFilterAdapter::PlayerBlock(x) => x.filtered(c, ts),
+        }
+    }
+    pub open spec fn dyn_selected_ok(a: DynStrategyAdapter, c: Ctx, ts: Seq<Target>, r: Result<Option<Target>>) -> bool {
+        match a {
+            DynStrategyAdapter::Any(x) => x.selected_ok(c, ts, r),
+            DynStrategyAdapter::PlayerFill(x) => x.selected_ok(c, ts, r),
+            DynStrategyAdapter::Grpc(x) => x.selected_ok(c, ts, r),
+        }
+    }
+    /// the adapter built from one configured filter computes exactly the qualifying targets, in order
+    pub open spec fn denotes(a: DynFilterAdapter, cf: config::OptionFilterAdapter) -> bool {
+        forall|c: Ctx, ts: Seq<Target>| #[trigger] a.filtered(c, ts) == Some(keep(ts, |t: Target| cfg_qualifies(cf, c, t)))
+    }
+
+    pub proof fn lemma_keep_ext<A>(s: Seq<A>, p: spec_fn(A) -> bool, q: spec_fn(A) -> bool)
+        requires forall|i: int| 0 <= i < s.len() ==> p(#[trigger] s[i]) == q(s[i]),
+        ensures keep(s, p) == keep(s, q),
+        decreases s.len()
+    {
+        if s.len() > 0 { lemma_keep_ext(s.drop_last(), p, q); }
+    }
+    pub proof fn lemma_keep_all<A>(s: Seq<A>, p: spec_fn(A) -> bool)
+        requires forall|i: int| 0 <= i < s.len() ==> p(#[trigger] s[i]),
+        ensures keep(s, p) == s,
+        decreases s.len()
+    {
+        if s.len() > 0 { lemma_keep_all(s.drop_last(), p); assert(s.drop_last().push(s.last()) =~= s); }
+    }
+    pub proof fn lemma_keep_none<A>(s: Seq<A>, p: spec_fn(A) -> bool)
+        requires forall|i: int| 0 <= i < s.len() ==> !p(#[trigger] s[i]),
+        ensures keep(s, p) == Seq::<A>::empty(),
+        decreases s.len()
+    {
+        if s.len() > 0 { lemma_keep_none(s.drop_last(), p); }
+    }
+    /// filtering twice = filtering by the conjunction
+    pub proof fn lemma_keep_keep<A>(s: Seq<A>, p: spec_fn(A) -> bool, q: spec_fn(A) -> bool)
+        ensures keep(keep(s, p), q) == keep(s, |a: A| p(a) && q(a)),
+        decreases s.len()
+    {
+        if s.len() > 0 {
+            lemma_keep_keep(s.drop_last(), p, q);
+            if p(s.last()) {
+                let k = keep(s.drop_last(), p);
+                assert(k.push(s.last()).drop_last() =~= k);
+            }
+        }
+    }
+    pub proof fn lemma_keep_members<A>(s: Seq<A>, p: spec_fn(A) -> bool)
+        ensures forall|j: int| 0 <= j < keep(s, p).len() ==> p(#[trigger] keep(s, p)[j]) && exists|i: int| 0 <= i < s.len() && s[i] == keep(s, p)[j],
+        decreases s.len()
+    {
+        if s.len() > 0 {
+            lemma_keep_members(s.drop_last(), p);
+            let k0 = keep(s.drop_last(), p);
+            let k = keep(s, p);
+            assert forall|j: int| 0 <= j < k.len() implies p(#[trigger] k[j]) && exists|i: int| 0 <= i < s.len() && s[i] == k[j] by {
+                if j < k0.len() {
+                    let i = choose|i: int| 0 <= i < s.drop_last().len() && s.drop_last()[i] == k0[j];
+                    assert(s[i] == k[j]);
+                } else {
+                    assert(s[s.len() - 1] == k[j]);
+                }
+            }
+        }
+    }
+
+    pub open spec fn ids_parsed(cfg: Option<Vec<String>>, built: Option<Vec<Uuid>>) -> bool {
+        match (cfg, built) {
+            (None, None) => true,
+            (Some(v), Some(w)) => w@.len() == v@.len() && forall|i: int| 0 <= i < w@.len() ==> Some(#[trigger] w@[i]) == uuid_parse(v@[i]@),
+            _ => false,
+        }
+    }
+    proof fn lemma_listed(usernames: Option<Vec<String>>, username: Option<String>, ids: Option<Vec<String>>, built: Option<Vec<Uuid>>, c: Ctx)
+        requires ids_parsed(ids, built),
+        ensures listed(usernames, cfg_regex(username), built, c) == cfg_listed(usernames, username, ids, c),
+    {
+        if let (Some(v), Some(w)) = (ids, built) {
+            if some_id(w@, c.id) {
+                let i = choose|i: int| 0 <= i < w@.len() && #[trigger] w@[i] == c.id;
+                assert(uuid_parse(v@[i]@) == Some(c.id));
+            }
+            if some_parsed_id(v@, c.id) {
+                let i = choose|i: int| 0 <= i < v@.len() && uuid_parse((#[trigger] v@[i])@) == Some(c.id);
+                assert(w@[i] == c.id);
+            }
+        }
+    }
+    pub proof fn lemma_meta_denotes(oa: OptionFilterAdapter<MetaFilterAdapter>, cf: config::OptionFilterAdapter)
+        requires
+            cf.filter is Meta, oa.hostname == cfg_regex(cf.hostname),
+            oa.filter.rules@.len() == cf.filter->Meta_0.rules@.len(),
+            forall|i: int| 0 <= i < oa.filter.rules@.len() ==> (#[trigger] oa.filter.rules@[i]) == cfg_rule(cf.filter->Meta_0.rules@[i]),
+        ensures denotes(DynFilterAdapter::Meta(oa), cf),
+    {
+        let a = DynFilterAdapter::Meta(oa);
+        let rs = cf.filter->Meta_0.rules@;
+        assert forall|c: Ctx, ts: Seq<Target>| #[trigger] a.filtered(c, ts) == Some(keep(ts, |t: Target| cfg_qualifies(cf, c, t))) by {
+            if applicable(oa.hostname, c) {
+                assert forall|i: int| 0 <= i < ts.len() implies rules_ok(oa.filter.rules@, #[trigger] ts[i]) == cfg_qualifies(cf, c, ts[i]) by {
+                    let t = ts[i];
+                    if rules_ok(oa.filter.rules@, t) {
+                        assert forall|k: int| 0 <= k < rs.len() implies rule_ok(cfg_rule(#[trigger] rs[k]), t) by { assert(rule_ok(oa.filter.rules@[k], t)); }
+                    }
+                    if cfg_rules_ok(rs, t) {
+                        assert forall|k: int| 0 <= k < oa.filter.rules@.len() implies rule_ok(#[trigger] oa.filter.rules@[k], t) by { assert(rule_ok(cfg_rule(rs[k]), t)); }
+                    }
+                }
+                lemma_keep_ext(ts, |t: Target| rules_ok(oa.filter.rules@, t), |t: Target| cfg_qualifies(cf, c, t));
+            } else {
+                lemma_keep_all(ts, |t: Target| cfg_qualifies(cf, c, t));
+            }
+        }
+    }
+    pub proof fn lemma_allow_denotes(oa: OptionFilterAdapter<PlayerAllowFilterAdapter>, cf: config::OptionFilterAdapter)
+        requires
+            cf.filter is PlayerAllow, oa.hostname == cfg_regex(cf.hostname),
+            oa.filter.usernames == cf.filter->PlayerAllow_0.usernames, oa.filter.username == cfg_regex(cf.filter->PlayerAllow_0.username),
+            ids_parsed(cf.filter->PlayerAllow_0.ids, oa.filter.ids),
+        ensures denotes(DynFilterAdapter::PlayerAllow(oa), cf),
+    {
+        let a = DynFilterAdapter::PlayerAllow(oa);
+        let p = cf.filter->PlayerAllow_0;
+        assert forall|c: Ctx, ts: Seq<Target>| #[trigger] a.filtered(c, ts) == Some(keep(ts, |t: Target| cfg_qualifies(cf, c, t))) by {
+            lemma_listed(p.usernames, p.username, p.ids, oa.filter.ids, c);
+            if !applicable(oa.hostname, c) || cfg_listed(p.usernames, p.username, p.ids, c) {
+                lemma_keep_all(ts, |t: Target| cfg_qualifies(cf, c, t));
+            } else {
+                lemma_keep_none(ts, |t: Target| cfg_qualifies(cf, c, t));
+            }
+        }
+    }
+    pub proof fn lemma_block_denotes(oa: OptionFilterAdapter<PlayerBlockFilterAdapter>, cf: config::OptionFilterAdapter)
+        requires
+            cf.filter is PlayerBlock, oa.hostname == cfg_regex(cf.hostname),
+            oa.filter.usernames == cf.filter->PlayerBlock_0.usernames, oa.filter.username == cfg_regex(cf.filter->PlayerBlock_0.username),
+            ids_parsed(cf.filter->PlayerBlock_0.ids, oa.filter.ids),
+        ensures denotes(DynFilterAdapter::PlayerBlock(oa), cf),
+    {
+        let a = DynFilterAdapter::PlayerBlock(oa);
+        let p = cf.filter->PlayerBlock_0;
+        assert forall|c: Ctx, ts: Seq<Target>| #[trigger] a.filtered(c, ts) == Some(keep(ts, |t: Target| cfg_qualifies(cf, c, t))) by {
+            lemma_listed(p.usernames, p.username, p.ids, oa.filter.ids, c);
+            if !applicable(oa.hostname, c) || !cfg_listed(p.usernames, p.username, p.ids, c) {
+                lemma_keep_all(ts, |t: Target| cfg_qualifies(cf, c, t));
+            } else {
+                lemma_keep_none(ts, |t: Target| cfg_qualifies(cf, c, t));
+            }
+        }
+    }
+    /// C18 (filters): the configured chain offers exactly the discovered targets that qualify under every configured filter, in
+    /// discovery order — so a player is never offered a disqualified target, and is left without one only if none qualifies
+    pub proof fn lemma_chain_denotes(fs: Seq<DynFilterAdapter>, cfs: Seq<config::OptionFilterAdapter>, c: Ctx, ts: Seq<Target>)
+        requires fs.len() == cfs.len(), forall|i: int| 0 <= i < fs.len() ==> denotes(#[trigger] fs[i], cfs[i]),
+        ensures chain_filtered(fs, c, ts) == Some(keep(ts, |t: Target| cfgs_qualify(cfs, c, t))),
+        decreases fs.len()
+    {
+        let q = |t: Target| cfgs_qualify(cfs, c, t);
+        if fs.len() == 0 {
+            lemma_keep_all(ts, q);
+        } else {
+            let cfs0 = cfs.drop_last();
+            let q0 = |t: Target| cfgs_qualify(cfs0, c, t);
+            let ql = |t: Target| cfg_qualifies(cfs.last(), c, t);
+            lemma_chain_denotes(fs.drop_last(), cfs0, c, ts);
+            let s = keep(ts, q0);
+            assert(denotes(fs[fs.len() - 1], cfs[fs.len() - 1]));
+            assert(fs.last().filtered(c, s) == Some(keep(s, ql)));
+            lemma_keep_keep(ts, q0, ql);
+            assert forall|i: int| 0 <= i < ts.len() implies (q0(#[trigger] ts[i]) && ql(ts[i])) == q(ts[i]) by {
+                let t = ts[i];
+                if q0(t) && ql(t) {
+                    assert forall|k: int| 0 <= k < cfs.len() implies cfg_qualifies(#[trigger] cfs[k], c, t) by {
+                        if k < cfs0.len() { assert(cfg_qualifies(cfs0[k], c, t)); }
+                    }
+                }
+                if q(t) {
+                    assert forall|k: int| 0 <= k < cfs0.len() implies cfg_qualifies(#[trigger] cfs0[k], c, t) by { assert(cfg_qualifies(cfs[k], c, t)); }
+                    assert(cfg_qualifies(cfs[cfs.len() - 1], c, t));
+                }
+            }
+            lemma_keep_ext(ts, |t: Target| q0(t) && ql(t), q);
+        }
+    }
+
+    // ---- C18, end to end: what the configured chain and the configured strategy together guarantee -----------------------
+    pub proof fn lemma_keep_complete<A>(s: Seq<A>, p: spec_fn(A) -> bool)
+        ensures forall|i: int| 0 <= i < s.len() && p(#[trigger] s[i]) ==> exists|j: int| 0 <= j < keep(s, p).len() && keep(s, p)[j] == s[i],
+        decreases s.len()
+    {
+        if s.len() > 0 {
+            lemma_keep_complete(s.drop_last(), p);
+            let k0 = keep(s.drop_last(), p);
+            let k = keep(s, p);
+            assert forall|i: int| 0 <= i < s.len() && p(#[trigger] s[i]) implies exists|j: int| 0 <= j < k.len() && k[j] == s[i] by {
+                if i < s.len() - 1 {
+                    assert(s.drop_last()[i] == s[i]);
+                    let j = choose|j: int| 0 <= j < k0.len() && k0[j] == s.drop_last()[i];
+                    assert(k[j] == s[i]);
+                } else {
+                    assert(k[k.len() - 1] == s[i]);
+                }
+            }
+        }
+    }
+    /// the first kept element is the first element that satisfies `p`
+    pub proof fn lemma_keep_first<A>(s: Seq<A>, p: spec_fn(A) -> bool)
+        ensures keep(s, p).len() > 0 ==> exists|i: int| 0 <= i < s.len() && #[trigger] s[i] == keep(s, p)[0] && p(s[i]) && forall|k: int| 0 <= k < i ==> !p(#[trigger] s[k]),
+        decreases s.len()
+    {
+        if s.len() > 0 {
+            let s0 = s.drop_last();
+            lemma_keep_first(s0, p);
+            let k0 = keep(s0, p);
+            if k0.len() > 0 {
+                let i = choose|i: int| 0 <= i < s0.len() && #[trigger] s0[i] == k0[0] && p(s0[i]) && forall|k: int| 0 <= k < i ==> !p(#[trigger] s0[k]);
+                assert(s[i] == keep(s, p)[0]);
+                assert forall|k: int| 0 <= k < i implies !p(#[trigger] s[k]) by { assert(s0[k] == s[k]); }
+            } else if p(s.last()) {
+                lemma_keep_complete(s0, p);
+                let i = s.len() - 1;
+                assert(s[i] == keep(s, p)[0]);
+                assert forall|k: int| 0 <= k < i implies !p(#[trigger] s[k]) by {
+                    if p(s[k]) { assert(s0[k] == s[k]); assert(p(s0[k])); }
+                }
+            }
+        }
+    }
+    /// C18, default strategy: the player is sent to the first discovered target that qualifies under every configured filter, and is
+    /// left without a target only if no discovered target qualifies
+    pub proof fn lemma_c18_default_strategy(cfs: Seq<config::OptionFilterAdapter>, c: Ctx, discovered: Seq<Target>, r: Result<Option<Target>>)
+        requires any_selected_ok(keep(discovered, |t: Target| cfgs_qualify(cfs, c, t)), r),
+        ensures
+            r matches Ok(Some(t)) ==> exists|i: int| 0 <= i < discovered.len() && #[trigger] discovered[i] == t && cfgs_qualify(cfs, c, t) && forall|k: int| 0 <= k < i ==> !cfgs_qualify(cfs, c, #[trigger] discovered[k]), // @cl:C18.routing.default_strategy_picks_the_first_qualifying_target
+            r matches Ok(None) ==> forall|i: int| 0 <= i < discovered.len() ==> !cfgs_qualify(cfs, c, #[trigger] discovered[i]), // @cl:C18.routing.default_strategy_refuses_only_if_nothing_qualifies
+            r is Ok, // @cl:C18.routing.default_strategy_never_fails
+    {
+        let q = |t: Target| cfgs_qualify(cfs, c, t);
+        lemma_keep_first(discovered, q);
+        lemma_keep_complete(discovered, q);
+    }
+    /// C18, player-fill strategy: the chosen target is a discovered target that qualifies, is below the configured capacity, and no
+    /// other qualifying target below capacity is fuller; no target only if every qualifying target is at or above capacity
+    pub proof fn lemma_c18_player_fill_strategy(a: PlayerFillStrategyAdapter, cfs: Seq<config::OptionFilterAdapter>, c: Ctx, discovered: Seq<Target>, r: Result<Option<Target>>)
+        requires fill_selected_ok(a, keep(discovered, |t: Target| cfgs_qualify(cfs, c, t)), r),
+        ensures
+            r matches Ok(Some(t)) ==> (exists|i: int| 0 <= i < discovered.len() && #[trigger] discovered[i] == t) && cfgs_qualify(cfs, c, t) && players(t, a.field@) < a.max_players, // @cl:C18.routing.fill_picks_a_qualifying_target_below_capacity
+            r matches Ok(Some(t)) ==> forall|j: int| 0 <= j < discovered.len() && cfgs_qualify(cfs, c, #[trigger] discovered[j]) && players(discovered[j], a.field@) < a.max_players ==> players(discovered[j], a.field@) <= players(t, a.field@), // @cl:C18.routing.fill_no_eligible_target_is_fuller
+            r matches Ok(None) ==> forall|j: int| 0 <= j < discovered.len() && cfgs_qualify(cfs, c, #[trigger] discovered[j]) ==> players(discovered[j], a.field@) >= a.max_players, // @cl:C18.routing.fill_refuses_only_if_nothing_eligible
+            r is Ok, // @cl:C18.routing.fill_never_fails
+    {
+        let q = |t: Target| cfgs_qualify(cfs, c, t);
+        let s = keep(discovered, q);
+        lemma_keep_members(discovered, q);
+        lemma_keep_complete(discovered, q);
+        if let Ok(Some(t)) = r {
+            let i = choose|i: int| 0 <= i < s.len() && #[trigger] s[i] == t;
+            assert(q(s[i]));
+            assert forall|j: int| 0 <= j < discovered.len() && cfgs_qualify(cfs, c, #[trigger] discovered[j]) && players(discovered[j], a.field@) < a.max_players
+                implies players(discovered[j], a.field@) <= players(t, a.field@) by {
+                assert(q(discovered[j]));
+                let k = choose|k: int| 0 <= k < s.len() && s[k] == discovered[j];
+                assert(players(s[k], a.field@) < a.max_players);
+            }
+        }
+        if let Ok(None) = r {
+            assert forall|j: int| 0 <= j < discovered.len() && cfgs_qualify(cfs, c, #[trigger] discovered[j]) implies players(discovered[j], a.field@) >= a.max_players by {
+                assert(q(discovered[j]));
+                let k = choose|k: int| 0 <= k < s.len() && s[k] == discovered[j];
+                assert(players(s[k], a.field@) >= a.max_players);
+            }
+        }
+    }
